@@ -149,6 +149,7 @@ def h5_configs(tier):
             ("bogus", S(">a-`["), 4, [S("<!"), S("<?"), S("</ "), S("<!DOCTYPE"), S("<!doctype")], [0]),
             ("attrq", S("'\"`a> /="), 4, [S("<a b="), S("<a b='"), S('<a b="'), S("<a b=`"), S("<a b ")], [0]),
             ("valctx", S("'\"`a> /=<"), 4, [[]], [1, 2, 3, 4]),
+            ("allbytes", list(range(256)), 1, [S(""), S("<"), S("<a"), S("<a "), S("<a b"), S("<a b="), S("</"), S("<!--"), S("<a b='")], range(5)),
         ]
     return [
         ("sigma4", sig, 4, [[]], range(5)),
@@ -159,6 +160,8 @@ def h5_configs(tier):
         ("bogus", S(">a-`["), 6, [S("<!"), S("<?"), S("</ "), S("<!DOCTYPE"), S("<!doctype")], [0]),
         ("attrq", S("'\"`a> /="), 5, [S("<a b="), S("<a b='"), S('<a b="'), S("<a b=`"), S("<a b ")], [0]),
         ("valctx", S("'\"`a> /=<"), 5, [[]], [1, 2, 3, 4]),
+        ("allbytes", list(range(256)), 1, [S(""), S("<"), S("<a"), S("<a "), S("<a b"), S("<a b="), S("</"), S("<!--"), S("<a b='")], range(5)),
+        ("allbytes2", list(range(256)), 2, [S(""), S("<a ")], [0, 1]),
     ]
 
 
@@ -206,6 +209,7 @@ def xss_inputs(tier, salt):
     for opener, alpha in vgen.html_constructs():
         for body in vgen.all_strings(alpha, 6 if big else 4):
             items.append(vgen.b(opener) + body)
+    items += list(vgen.all_bytes_in_context(vgen.HTML_BYTE_FRAMES if big else vgen.HTML_BYTE_FRAMES[:8]))
     return list(vgen.dedup(items))
 
 
@@ -939,6 +943,9 @@ def sqli_configs(tier):
             ("lex.q", "lex", byte_units("q'[]x( \xe9"), 4, ["", "n"], [9]),
             ("lex.dollar", "lex", byte_units("$aA1.,"), 4, ["$"], [9]),
             ("lex.comment", "lex", byte_units("/*!-\n #"), 4, [""], [9, 17]),
+            ("lex.allbytes", "lex", [chr(c) for c in range(256)], 1, ["", "a", "1", "a ", "'", "@", "a.", "$", "/*", "--", "0x"], [9, 17, 10]),
+            ("lex.qbody", "lex", byte_units("])x'a!"), 4, ["q'[", "q'x", "nq'(", "Q'!"], [9]),
+            ("lex.dbody", "lex", byte_units("$aAb x"), 4, ["$a$", "$$", "$aB$"], [9]),
             ("pass.core3", "pass", core, 3, [""], ALLFLAGS),
             ("pass.core4", "pass", core, 4, [""], [9, 10]),
             ("pass.tok", "pass", SQL_TOKEN_UNITS, 3, [""], [9]),
@@ -954,6 +961,10 @@ def sqli_configs(tier):
         ("lex.q", "lex", byte_units("q'[]x( \xe9"), 6, ["", "n"], [9]),
         ("lex.dollar", "lex", byte_units("$aA1.,"), 7, ["$"], [9]),
         ("lex.comment", "lex", byte_units("/*!-\n #"), 6, [""], [9, 17]),
+        ("lex.allbytes1", "lex", [chr(c) for c in range(256)], 1, ["", "a", "1", "a ", "'", "@", "a.", "$", "/*", "--", "0x"], ALLFLAGS),
+        ("lex.allbytes2", "lex", [chr(c) for c in range(256)], 2, [""], [9]),
+        ("lex.qbody", "lex", byte_units("])x'a!"), 6, ["q'[", "q'x", "nq'(", "Q'!"], [9]),
+        ("lex.dbody", "lex", byte_units("$aAb x"), 6, ["$a$", "$$", "$aB$"], [9]),
         ("pass.core", "pass", core, 5, [""], ALLFLAGS),
         ("pass.tok", "pass", SQL_TOKEN_UNITS, 4, [""], [9]),
         ("pass.tok3", "pass", SQL_TOKEN_UNITS, 3, [""], [17, 10, 18, 12, 20]),
@@ -1005,6 +1016,8 @@ def sqli_inputs(tier, salt):
     items += list(vgen.mutations(base, vgen.SIGMA_SQL, r, per_input=30 if big else 3))
     items += list(vgen.walks(vgen.SQL_FRAGMENTS, r, 60000 if big else 5000, 1, 8))
     items += list(vgen.periodic_tails(r, 6000 if big else 600))
+    items += list(vgen.all_bytes_in_context(vgen.SQL_BYTE_FRAMES if big else vgen.SQL_BYTE_FRAMES[:9]))
+    items += list(vgen.literal_bodies(6 if big else 4))
     return list(vgen.dedup(items))
 
 
